@@ -53,6 +53,8 @@ def grid(tier):
             if FORMS.index(p["form"]) * 6 + EDITS.index(p["edit"]) == j:
                 out.append(p)
         pts = out
+    # the same points with namespace packages below the top-level package, for the fully dotted import form
+    pts += [dict(p, namespace=True) for k_, p in enumerate(pts) if p["form"] == "fullattr" and p["d"] >= 2 and not p.get("by_object") and (tier == "thorough" or k_ % 2 == 0)]
     return pts
 
 
@@ -84,6 +86,8 @@ def render(pt, state):
     parts = parts_of(pt["d"])
     files = {}
     for i in range(1, len(parts)):
+        if pt.get("namespace") and i >= 2:
+            continue   # packages below the top one are namespace packages (PEP 420: a directory without __init__.py)
         files["/".join(parts[:i]) + "/__init__.py"] = ""
     files["/".join(parts) + ".py"] = (
         "import dds\nimport vlog\n\nLV = %r\n\n\ndef lf():\n    vlog.rec('lf')\n    return ('lf', %d, LV)\n\n\n"
@@ -249,7 +253,7 @@ def check_point(pt, ev=None, scratch=None):
         if "sdata" in r3["log"]:
             raise Violation(f"accepted={acc!r}: the body of the non-accepted data function ran before the refusal: {r3['log']}", pt)
         if ev is not None:
-            ev.case(pt, pt["d"] >= 3 or pt["count"] != 2, features=[f"depth{pt['d']}", f"count{pt['count']}", "edit:" + pt["edit"], "form:" + pt["form"], "accept-by-object" if pt.get("by_object") and not pt["lookalike"] else "accept-by-name",
+            ev.case(pt, pt["d"] >= 3 or pt["count"] != 2, features=[f"depth{pt['d']}", f"count{pt['count']}"] + (["namespace-packages"] if pt.get("namespace") else []) + [ "edit:" + pt["edit"], "form:" + pt["form"], "accept-by-object" if pt.get("by_object") and not pt["lookalike"] else "accept-by-name",
                                                                   "lookalike" if pt["lookalike"] else f"prefix{pt['k']}"])
     finally:
         if own:
